@@ -1,7 +1,7 @@
 import logging
 from typing import Dict, List, Optional, Union, cast
 
-from indi.message import EnableBLOB, IndiMessage, NewBLOBVector, const
+from indi.message import EnableBLOB, IndiMessage, SetBLOBVector, const
 from indi.routing import Client, Device
 
 logger = logging.getLogger(__name__)
@@ -49,7 +49,7 @@ class Router:
             del self.blob_routing[client]
 
     def process_message(self, message: IndiMessage, sender: SenderType = None):
-        is_blob = isinstance(message, NewBLOBVector)
+        is_blob = isinstance(message, SetBLOBVector)
 
         if message.from_client:
             if isinstance(message, EnableBLOB):
@@ -73,7 +73,14 @@ class Router:
                             const.BLOBEnable.ALSO,
                             const.BLOBEnable.ONLY,
                         )
-                    ) or (not is_blob and client_blob_policy == const.BLOBEnable.NEVER):
+                    ) or (
+                        not is_blob
+                        and client_blob_policy
+                        in (
+                            const.BLOBEnable.NEVER,
+                            const.BLOBEnable.ALSO,
+                        )
+                    ):
                         client.message_from_device(message)
 
     def process_enable_blob(self, message: EnableBLOB, sender: SenderType):
